@@ -167,3 +167,49 @@ def builder_keywords(repo, fi, depth=4, _seen=None):
                     if k.arg:
                         out.setdefault(k.arg, k.value)
     return out
+
+
+def builder_armed(repo, cname, builder, args):
+    """Behavioural probe of a request builder: the request is built by interpretation at model time 1000, then asked
+      timeout      the largest t (seconds after construction) at which has_timedout is still False, over a grid
+      budget       how many times retry(socket) succeeds before it refuses
+      flags        whether the failure callback it carries (fired by loop() once the budget is gone and the timeout has
+                   passed) flags the request for removal
+    -> dict(timeout=float | None, budget=int, flags=bool) - whatever way the keywords reach the constructor."""
+    st = {"clock": 1000.0}
+    it = Interp(repo, max_depth=12)
+
+    def hook(it_, node, callee, a, k):
+        if getattr(callee, "name", "") == "time.monotonic":
+            return st["clock"]
+        return NotImplemented
+    it.call_hook = hook
+    fi = repo.method(cname, builder)
+    try:
+        it.steps = 0
+        h = it.call(fi, None, list(args), {})
+        grid = [0.0, 0.5, 1, 2, 3, 3.5, 3.9, 4, 4.1, 5, 8, 10, 20, 60, 121]
+        last_false = None
+        for t in grid:
+            st["clock"] = 1000.0 + t
+            if it.getattr(h, "has_timedout") is False:
+                last_false = t
+        sock = Obj(None, {"queue_send": Native(lambda a, k: None, "queue_send")}, name="socket")
+        h.attrs["last_destination"] = ("10.0.0.1", 10022)
+        budget = 0
+        st["clock"] = 1000.0
+        for _ in range(40):
+            it.steps = 0
+            if it.call(repo.method(cname, "retry"), h, [sock]) is True:
+                budget += 1
+            else:
+                break
+        st["clock"] += 1000.0
+        it.steps = 0
+        it.call(repo.method(cname, "loop"), h, [sock])
+        flags = it.getattr(h, "should_remove_handler") is True
+    except PyRaise as e:
+        return {"raises": e.what}
+    except Undecided as e:
+        raise AnalysisError(f"{cname}.{builder}: cannot probe the built request: {e}")
+    return {"timeout": last_false, "budget": budget, "flags": flags}
